@@ -73,7 +73,7 @@ Definition qs (s : str) : piece := Tk KString s.
 
 (* a bare word whose token kind is whatever the scanner makes of it (NS_ symbols) *)
 Definition word (w : str) : piece :=
-  Tk (match w with c :: r => classify_text c r | [] => KIdent end) w.
+  Tk (match w with c :: r => classify_text no_ud c r | [] => KIdent end) w.
 
 Section WithOracle.
 Variable fmt : N -> str.
